@@ -221,7 +221,7 @@ func parseInto(result *Version, input string) error {
 
 	colon := strings.Index(trimmed, ":")
 	if colon != -1 {
-		epoch, err := strconv.ParseInt(trimmed[:colon], 10, 64)
+		epoch, err := strconv.ParseInt(trimmed[:colon], 10, strconv.IntSize)
 		if err != nil {
 			return fmt.Errorf("epoch: %v", err)
 		}
